@@ -89,37 +89,77 @@ class Monitor:
             if len(vertices) != len(before) or any(v is not o for v, (o, _) in zip(vertices, before)):
                 ctx.violation("list changed although nothing may be deleted", witness)
             return True
-        # identity subsequence
-        pos, kept = 0, []
-        for v in vertices:
-            while pos < len(before) and before[pos][0] is not v:
-                pos += 1
-            if pos == len(before):
-                ctx.violation("result is not an in-order subsequence of the original vertex objects", witness)
-                return True
-            kept.append(pos)
-            pos += 1
-        for v, k in zip(vertices, kept):
-            if (v[0], v[1]) != before[k][1]:
+        # identity subsequence.  A vertex OBJECT may occur at several positions (aliasing), so the
+        # embedding of the result into the original is not unique: the statement holds if SOME in-order
+        # embedding keeps the first and last position and has every deleted vertex within tolerance.
+        n = len(before)
+        cands = [[k for k in range(n) if before[k][0] is v] for v in vertices]
+        if any(not c for c in cands):
+            ctx.violation("result is not an in-order subsequence of the original vertex objects", witness)
+            return True
+        for v, c in zip(vertices, cands):
+            if any((v[0], v[1]) != before[k][1] for k in c):
                 ctx.violation("a surviving vertex was modified", witness)
                 return True
-        if not kept or kept[0] != 0 or kept[-1] != len(before) - 1:
+        limit = (F(tolerance) * (1 + BAND)) ** 2
+        gap_cache = {}
+
+        def gap_bad(a, b):
+            """None if every vertex strictly between positions a and b is within tolerance of the
+            chord a-b, else (index, distance) of an offender."""
+            if (a, b) not in gap_cache:
+                bad = None
+                for k in range(a + 1, b):
+                    if clearly(before[k][1], before[a][1], before[b][1], tolerance) == "below":
+                        continue
+                    ctx.count("exact rational distance computed")
+                    d2 = dist2_exact(before[k][1], before[a][1], before[b][1])
+                    if d2 >= limit:
+                        bad = (k, math.sqrt(float(d2)))
+                        break
+                gap_cache[(a, b)] = bad
+            return gap_cache[(a, b)]
+
+        # dynamic programme over (result element, candidate position)
+        order_ok = [{k: None for k in cands[0]}]            # position -> predecessor position (order only)
+        for c in cands[1:]:
+            prev = order_ok[-1]
+            order_ok.append({k: next((p for p in sorted(prev) if p < k), None) for k in c
+                             if any(p < k for p in prev)})
+            if not order_ok[-1]:
+                ctx.violation("result is not an in-order subsequence of the original vertex objects", witness)
+                return True
+        if 0 not in cands[0] or (n - 1) not in cands[-1] or (n - 1) not in order_ok[-1]:
             ctx.violation("first or last vertex not kept", witness)
             return True
-        limit = (F(tolerance) * (1 + BAND)) ** 2
-        deleted = 0
-        for a, b in zip(kept, kept[1:]):
-            for k in range(a + 1, b):
-                deleted += 1
-                quick = clearly(before[k][1], before[a][1], before[b][1], tolerance)
-                if quick == "below":
-                    continue
-                ctx.count("exact rational distance computed")
-                d2 = dist2_exact(before[k][1], before[a][1], before[b][1])
-                if d2 >= limit:
-                    witness.update(deleted_index=k, neighbours=[a, b], distance=math.sqrt(float(d2)))
-                    ctx.violation("deleted vertex is not within tolerance of the surviving chord", witness)
-                    return True
+        full = [{0: None}]
+        offender = None
+        for c in cands[1:]:
+            cur = {}
+            for k in c:
+                for p in full[-1]:
+                    if p < k:
+                        bad = gap_bad(p, k)
+                        if bad is None:
+                            cur[k] = p
+                            break
+                        offender = offender or (bad, p, k)
+            full.append(cur)
+            if not cur:
+                break
+        if not full[-1] or (n - 1) not in full[-1]:
+            if offender:
+                (k, dist), a, b = offender
+                witness.update(deleted_index=k, neighbours=[a, b], distance=dist)
+            ctx.violation("deleted vertex is not within tolerance of the surviving chord", witness)
+            return True
+        kept = [n - 1]
+        for level in range(len(full) - 1, 0, -1):
+            kept.append(full[level][kept[-1]])
+        kept.reverse()
+        deleted = n - len(kept)
+        if any(len(c) > 1 for c in cands):
+            ctx.count("monitor:embedding chosen among several (aliased vertex objects)")
         ctx.count("monitor:deleted vertices checked", deleted)
         if deleted:
             ctx.tag("outcome:some vertices deleted")
@@ -296,7 +336,20 @@ def gen_path(rng):
         tcls, tol = "tolerance integer/lattice", rng.choice((1, 2, 1.5, 0.5, 1.0000001, 1.4142135623730951))
     if rng.random() < 0.15:
         pts = [tuple(p) for p in pts]
-    return [cls, tcls], pts, tol
+    extra = []
+    if len(pts) >= 4 and rng.random() < 0.12:
+        # aliasing: one vertex object appears more than once (a loop closed with path.append(path[k]),
+        # a stem walked there and back, the final vertex being an earlier object)
+        k = rng.randrange(0, len(pts) - 1)
+        style = rng.randrange(3)
+        if style == 0:
+            pts.append(pts[k])
+        elif style == 1:
+            pts[-1] = pts[k]
+        else:
+            pts.insert(rng.randrange(k + 1, len(pts) + 1), pts[k])
+        extra = ["aliasing: the same vertex object at several positions"]
+    return [cls, tcls] + extra, pts, tol
 
 
 def plot_utils_mod():
@@ -362,7 +415,8 @@ def run(ctx):
                 ctx.case(["history: related call (same vertices / same tolerance as the previous one)",
                           "history kind %d" % choice], (tuple(map(tuple, pts2)), tol2, "after", k))
                 one_case(ctx, pts2, tol2)
-    for cls in ("history: related call (same vertices / same tolerance as the previous one)",
+    for cls in ("aliasing: the same vertex object at several positions",
+                "history: related call (same vertices / same tolerance as the previous one)",
                 "long chord, overshoot by a few tolerances (chord/tolerance 1e6..1e12)", "straight", "noisy straight", "random walk", "integer lattice", "repeated points",
                 "closed path (first == last)", "spikes beyond the chord ends",
                 "smooth curve (densely sampled)", "tolerance 0", "tolerance negative", "tolerance tiny",
